@@ -74,7 +74,7 @@ CHECKS = {
     "C10": (
         "exploration",
         "exhaustive enumeration of (source layout x moved note x ZID mentions x destination shape x marker) through the real CLI on real indexed directories, judged by a line-algebra model and recompilation",
-        "Moved note in 5 forms (incl. one carrying a modify date and one ending in a blank-only line) x 8 positions (incl. a comment or a section header right below it) x 7 ZID-mention patterns (incl. in its own body, at the start of an earlier note's bullet, a longer ZID that begins with it) x 4 own-tag / own-property patterns x 15 destination shapes (incl. Windows line endings) (incl. no trailing newline, template-created, ending in a section header, the source page itself, an existing page whose name also matches a template pattern) x 3 markers (quick: every value of every dimension in rotation; thorough: the full product); each case indexes a real directory with db create and runs `zorg note move` in a fresh process. Source must equal the original minus exactly the note's lines; destination must preserve every old line in order with the note inserted once, contiguously; both pages are recompiled: same set of notes, requested kind, body = old body plus inserted metadata words, tags/properties superset, every other note unchanged. A second family moves notes that were written WITHOUT a ZID (dated/undated, single/multi-line) straight after db create gave them one.",
+        "Moved note in 5 forms (incl. one carrying a modify date and one ending in a blank-only line) x 8 positions (incl. a comment or a section header right below it) x 7 ZID-mention patterns (incl. in its own body, at the start of an earlier note's bullet, a longer ZID that begins with it) x 4 own-tag / own-property patterns x 15 destination shapes (incl. Windows line endings) (incl. no trailing newline, template-created, ending in a section header, the source page itself, an existing page whose name also matches a template pattern) x 3 markers (quick: every value of every dimension in rotation; thorough: every (form, position, destination, marker, mention) with the own-tag pattern rotating plus every (mention, own-tag pattern, form, destination) with position and marker rotating - 24,248 moves; the full product of 86,016 moves was run to completion once); each case indexes a real directory with db create and runs `zorg note move` in a fresh process. Source must equal the original minus exactly the note's lines; destination must preserve every old line in order with the note inserted once, contiguously; both pages are recompiled: same set of notes, requested kind, body = old body plus inserted metadata words, tags/properties superset, every other note unchanged. A second family moves notes that were written WITHOUT a ZID (dated/undated, single/multi-line) straight after db create gave them one.",
         "Moving into a page that does not exist and has no template must fail without touching the source; inherited links are not required to be carried (the statement names tags and properties).",
         "§4 C10",
     ),
